@@ -25,9 +25,12 @@ enum Kind
 {
     K_V1,
     K_V0,
-    K_LEGACY
+    K_LEGACY,
+    K_CUSTOM // the configurable receiver with a user-defined context (target recv_custom)
 };
-const char *kind_name[] = {"cfg/v1", "cfg/v0", "legacy"};
+const char *kind_name[] = {"cfg/v1", "cfg/v0", "legacy", "cfg/custom"};
+static Alphabet g_custom = kV1;
+static const Alphabet &alpha_of(Kind k) { return k == K_V1 ? kV1 : k == K_CUSTOM ? g_custom : kV0; }
 
 struct Delivery
 {
@@ -54,7 +57,7 @@ struct Rearm
 Trace run_stream(Kind k, size_t cap, const Bytes &stream, const Rearm *ra = nullptr)
 {
     Trace t;
-    auto rx = k == K_LEGACY ? make_legacy_receiver(ra ? ra->pre_cap : cap) : make_cfg_receiver(k == K_V1 ? kV1 : kV0, ra ? ra->pre_cap : cap);
+    auto rx = k == K_LEGACY ? make_legacy_receiver(ra ? ra->pre_cap : cap) : make_cfg_receiver(alpha_of(k), ra ? ra->pre_cap : cap);
     if (ra)
     {
         for (size_t i = 0; i < ra->pre.size(); i++)
@@ -116,7 +119,7 @@ std::string show(const Bytes &b) { return hexdump(b.data(), b.size(), 100); }
 
 void check_stream(Kind k, size_t cap, const Bytes &stream, Case &c, const Rearm *ra = nullptr)
 {
-    const Alphabet &a = k == K_V1 ? kV1 : kV0;
+    const Alphabet &a = alpha_of(k);
     const bool rearmed = ra != nullptr;
     Trace t = run_stream(k, cap, stream, ra);
 
@@ -262,7 +265,7 @@ Bytes gen_payload(Src &s, const Alphabet &a, size_t maxn)
 
 void t_recv(Src &s, Case &c, Kind k)
 {
-    const Alphabet &a = k == K_V1 ? kV1 : kV0;
+    const Alphabet &a = alpha_of(k);
     size_t cap = g_large ? (size_t)(s.coin() ? s.range(250, 262) : s.range(508, 516)) : (size_t)(s.coin() ? s.range(2, 12) : s.range(2, 48));
     // 64 KiB class of the large target: capacities that do not fit 16 bits; frames stay ordinary (<= 300 bytes, all fit)
     size_t paymax = cap + 3;
@@ -417,6 +420,39 @@ void t_recv_rearm(Src &s, Case &c)
         return t_recv(s, c, K_LEGACY);
     }
 }
+void t_recv_custom(Src &s, Case &c)
+{
+    // a user-defined context: six bytes from a pool that contains the shipped alphabets' bytes as ordinary values too
+    static const uint8_t pool[] = {0x02, 0x03, 0x10, 0x7E, 0x7D, 0x5E, 0x5D, 0xA8, 0xB2, 0xAC, 0xAD, 0x00, 0xFF, 0x41, 0x1B, 0x5C};
+    Alphabet a;
+    uint8_t used[6];
+    int nu = 0;
+    auto fresh = [&]() {
+        for (size_t tries = 0;; tries++)
+        {
+            uint8_t b = pool[(s.below(sizeof pool) + tries) % sizeof pool]; // walks on when the drawn entry is taken
+            bool dup = false;
+            for (int i = 0; i < nu; i++)
+                dup |= used[i] == b;
+            if (!dup)
+            {
+                used[nu++] = b;
+                return b;
+            }
+        }
+    };
+    a.start = fresh();
+    bool same = s.below(3) == 0;
+    a.stop = same ? a.start : fresh();
+    a.stub = fresh();
+    a.c_start = fresh();
+    a.c_stop = same ? a.c_start : fresh();
+    a.c_stub = fresh();
+    g_custom = a;
+    c.log("context {start %02x stop %02x stub %02x codes %02x %02x %02x} ", a.start, a.stop, a.stub, a.c_start, a.c_stop, a.c_stub);
+    c.label(same ? "custom_same_markers" : "custom_distinct_markers");
+    t_recv(s, c, K_CUSTOM);
+}
 void t_recv_large(Src &s, Case &c)
 {
     LargeMode lm;
@@ -530,6 +566,9 @@ void t_recv_enum(Src &s, Case &c)
 
 } // namespace
 
+VP_TARGET("recv_custom", t_recv_custom,
+          "the configurable receiver with a user-defined context: start / stop (one time in three the same byte) / escape and the three escape codes drawn distinct from a pool "
+          "that also holds the shipped alphabets' bytes; the stream generator and the four predicates of recv_cfg");
 VP_TARGET("recv_rearm", t_recv_rearm,
           "all three receivers: the traffic of recv_cfg is cut at a random point where the receiver is handed a new exactly-sized buffer through "
           "init/setbuf (the old one is freed); bounded before and after, and on the part after the re-arm: sound (nothing received before the new "
